@@ -93,16 +93,32 @@ func (g *gateCtl) loop() {
 		}
 		g.polls++
 		a := g.snapshot()
-		if len(a) == 0 || !quiescent(buf) {
+		if len(a) == 0 {
 			time.Sleep(20 * time.Microsecond)
 			continue
 		}
-		// a second look: still quiescent with the same calls in flight
-		b := g.snapshot()
-		if !sameInts(a, b) || !quiescent(buf) {
+		strict, sig1 := quiescent(buf)
+		if strict {
+			// a second look: still quiescent with the same calls in flight
+			b := g.snapshot()
+			if strict2, _ := quiescent(buf); strict2 && sameInts(a, b) {
+				g.release(b)
+			}
 			continue
 		}
-		g.release(b)
+		if sig1 == "" {
+			time.Sleep(20 * time.Microsecond)
+			continue
+		}
+		// every goroutine is blocked, but somewhere this harness does not know (the code under
+		// test waits differently from the pinned version): accept the point if nothing at all
+		// moves for 25 ms
+		time.Sleep(25 * time.Millisecond)
+		b := g.snapshot()
+		if _, sig2 := quiescent(buf); sig2 == sig1 && sameInts(a, b) {
+			forcedReleases++
+			g.release(b)
+		}
 	}
 }
 
@@ -143,11 +159,17 @@ func (g *gateCtl) release(codes []int) {
 	close(pick.ch)
 }
 
+var forcedReleases int
+
 // quiescent: every goroutine other than the caller is parked at a point from which only the
-// controller (or the end of the run) can wake it, recognised by wait state AND frame.
-func quiescent(buf []byte) bool {
+// controller (or the end of the run) can wake it, recognised by wait state AND frame.  The
+// second result is a signature of all goroutines when every one of them is at least blocked
+// (on a channel, a select or a semaphore) - "" if one is running, runnable or sleeping.
+func quiescent(buf []byte) (bool, string) {
 	n := runtime.Stack(buf, true)
 	blocks := bytes.Split(buf[:n], []byte("\n\n"))
+	strict := true
+	var sig strings.Builder
 	for i, blk := range blocks {
 		if i == 0 {
 			continue // the controller itself
@@ -161,7 +183,7 @@ func quiescent(buf []byte) bool {
 		lb := strings.IndexByte(head, '[')
 		rb := strings.LastIndexByte(head, ']')
 		if lb < 0 || rb < lb {
-			return false
+			return false, ""
 		}
 		state := head[lb+1 : rb]
 		if c := strings.IndexByte(state, ','); c >= 0 {
@@ -178,9 +200,17 @@ func quiescent(buf []byte) bool {
 		case "semacquire", "sync.WaitGroup.Wait":
 			ok = strings.Contains(body, "sync.(*WaitGroup).Wait(") && strings.Contains(body, "flyt.(*WorkerPool).Wait(")
 		}
+		switch state {
+		case "chan receive", "chan send", "select", "semacquire", "sync.WaitGroup.Wait", "sync.Mutex.Lock", "sync.Cond.Wait", "chan receive (nil chan)":
+			sig.WriteString(head[:lb])
+			sig.WriteString(state)
+			sig.WriteByte(';')
+		default:
+			return false, ""
+		}
 		if !ok {
-			return false
+			strict = false
 		}
 	}
-	return true
+	return strict, sig.String()
 }
